@@ -404,3 +404,154 @@ Proof.
   split; [apply C06_vm_invariant_empty; reflexivity|]. split; [|exact ok_example_run].
   intros s B. exact (C06_boot_invariant [] s s B (evals_refl s)).
 Qed.
+
+(* ======================================================================================================
+   WP-c06e — towards the sites D = {10 14 40 44} (the frame / environment discipline of compiled code).
+   LOCAL theorems (Proofs/NoPanicEnv.v): per operation / instruction, under the local preconditions
+     [ep_ok s n]      %ep is an environment object with >= n slots (nothing asked for n = 0),
+     [lex_okb l]      every VLexSlot operand of the code object is below len (l_envmap l)   (decidable),
+     [closure_paired] %acc is a closure whose environment object has len (l_envmap code) slots,
+     [frame_at]       (C04) bp+1..bp+4 hold Argc n / Ep / Ip / Bp and n <= bp,
+   together with the whole-machine invariant [finv] (kept by every instruction: C06_eval_vm_outcome).
+   What is still missing for excluding D from C06_eval_no_vm_panic is ONE whole-machine statement,
+   kept OPEN below ([C06_frame_discipline_stmt]): that these local preconditions hold at every
+   instruction boundary of every evaluation.  [disc_okb] is that candidate invariant as an executable
+   monitor; C06_discipline_example runs it along 13 evaluations instruction by instruction.
+   ====================================================================================================== *)
+From MW Require Import Proofs.TailProofs Proofs.ScopeProofs Proofs.EnvProofs Proofs.NoPanicEnv Proofs.NoPanicEnvEx.
+
+(* sites 44 and 10 through %ep: a lexical load / store below the size of the current environment is TOTAL
+   (no panic, no error), through the (at most one) VLexPtr indirection *)
+Theorem C06_lex_load_total : forall s n k,
+  finv s -> ep_ok s n -> k < n -> exists v, load_lex_slot k s = ROk v s /\ no_lexptr v.
+Proof. exact load_lex_slot_total. Qed.
+Print Assumptions C06_lex_load_total.
+
+Theorem C06_lex_store_total : forall s n k v,
+  finv s -> ep_ok s n -> k < n ->
+  exists s', store_lex_slot k v s = ROk tt s' /\ ep_ok s' n /\ hp s' = hp s /\ ep s' = ep s.
+Proof. exact store_lex_slot_total. Qed.
+Print Assumptions C06_lex_store_total.
+
+(* the three instructions that carry lexical-slot operands (MOV, MOV-immediate, PUSH): in a code object that
+   passes [lex_okb], with an ok %ep, the only panics left are a raw out-of-range VPtr operand (10) and an
+   unknown global slot (45, excluded by wfm): never 44, never 10 through %ep *)
+Theorem C06_lex_instr_env_sites : forall ob s l op s0 k,
+  finv s -> code_at s = Some l -> lex_okb l = true -> ep_ok s (len (l_envmap l)) ->
+  read_opcode s = ROk op s0 -> lex_instr op = true ->
+  run_one ob s = RPanic k -> k = 10 \/ k = 45.
+Proof. exact lex_instr_env_sites. Qed.
+Print Assumptions C06_lex_instr_env_sites.
+
+(* CLOSURE: building the closure environment panics only by the usize underflow of load_arg (40) when the
+   IofEnvironment entries of the envmap are below the size of the current environment *)
+Theorem C06_closure_env_panic : forall s n envmap k,
+  ep_ok s n -> iof_okb n envmap = true -> build_closure_environment envmap s = RPanic k -> k = 40.
+Proof. exact build_closure_environment_panic. Qed.
+Print Assumptions C06_closure_env_panic.
+
+(* CLOSURE pairs the code object with an environment object of exactly len envmap slots *)
+Theorem C06_closure_pairs : forall s r s',
+  heap_inv (hp s) -> store_wf (st s) -> closure_body s = ROk r s' ->
+  exists lp lid l ei env,
+    heap_deref (hp s') (acc s') = Ok (VClosure lp ei) /\
+    heap_get (hp s) lp = Ok (VLambda lid) /\ tget (lams (st s)) lid = Some l /\
+    env_at s' ei = Some (next_id (st s), env) /\ len env = len (l_envmap l).
+Proof. exact closure_pairs. Qed.
+Print Assumptions C06_closure_pairs.
+
+(* ENTER of a paired closure: no slot-index panic (44), no heap-index panic (10); only the underflow 40 *)
+Theorem C06_enter_paired_panic : forall s l k,
+  closure_paired s l -> enter_frame s = RPanic k -> k = 40.
+Proof. exact enter_panic_only_underflow. Qed.
+Print Assumptions C06_enter_paired_panic.
+
+(* ... and it establishes [ep_ok] for the callee: a NEW environment of exactly len envmap slots *)
+Theorem C06_enter_establishes_ep : forall s l r s',
+  heap_inv (hp s) -> store_wf (st s) -> closure_paired s l -> enter_frame s = ROk r s' ->
+  ep_ok s' (len (l_envmap l)) /\
+  exists env, env_at s' (ep s') = Some (next_id (st s), env) /\ len env = len (l_envmap l).
+Proof. exact enter_establishes_ep. Qed.
+Print Assumptions C06_enter_establishes_ep.
+
+(* ENTER right after a well-formed CALL (argc arguments, VArgc, VEp, VIp on the stack: len args + 3 <= sp) of a
+   paired closure whose BArgument indices are arguments ([arg_okb], decidable): NO panic at all — in particular
+   not the sp - 4 / bp - k underflows (40) *)
+Theorem C06_enter_total_no_panic : forall s l k,
+  closure_paired s l -> arg_okb l = true -> len (l_args l) + 3 <= sp s -> enter_frame s <> RPanic k.
+Proof. exact enter_total_no_panic. Qed.
+Print Assumptions C06_enter_total_no_panic.
+
+(* the monitor's ENTER clause implies these hypotheses *)
+Theorem C06_enter_monitor_sound : forall s l lam cep,
+  next_op s l = Some OEnter -> closureb s l = true ->
+  heap_deref (hp s) (acc s) = Ok (VClosure lam cep) ->
+  exists l2, closure_paired s l2 /\ arg_okb l2 = true /\ len (l_args l2) + 3 <= sp s.
+Proof. exact closureb_enter_sound. Qed.
+Print Assumptions C06_enter_monitor_sound.
+
+(* site 40 at RET and load_arg: total in a frame (C04 frame_at); RET restores the saved %ep %ip %bp *)
+Theorem C06_ret_total : forall s n e i b,
+  frame_at s n e i b -> bp s + 4 < scap s ->
+  ret_body s = ROk false (with_bp (with_ip (with_ep (with_sp s (bp s - n)) e) i) b).
+Proof. exact ret_total. Qed.
+Print Assumptions C06_ret_total.
+
+Theorem C06_ret_restores_ep_ok : forall s n e i b eid l m,
+  frame_at s n e i b -> bp s + 4 < scap s -> env_at s e = Some (eid, l) -> m <= len l ->
+  exists s', ret_body s = ROk false s' /\ ep_ok s' m /\ ip s' = i /\ bp s' = b /\ sp s' = bp s - n.
+Proof. exact ret_restores_ep_ok. Qed.
+Print Assumptions C06_ret_restores_ep_ok.
+
+Theorem C06_load_arg_total : forall s n e i b k,
+  frame_at s n e i b -> bp s + 1 < scap s -> k < n ->
+  load_arg k s = ROk (sget s (bp s - n + k + 1)) s.
+Proof. exact load_arg_total. Qed.
+Print Assumptions C06_load_arg_total.
+
+(* the executable monitor implies the local preconditions *)
+Theorem C06_discipline_monitor_sound : forall s,
+  disc_okb s = true ->
+  exists l, code_at s = Some l /\ lex_okb l = true /\
+    (in_body s l = true -> ep_ok s (len (l_envmap l)) /\
+       exists n e i b, frame_at s n e i b /\ bp s + 4 <= sp s /\ sp s < scap s).
+Proof. exact disc_okb_sound. Qed.
+Print Assumptions C06_discipline_monitor_sound.
+
+(* non-vacuity: the monitor holds at EVERY instruction boundary of 13 evaluations on boot_with [] (closures over
+   mutated variables, variadic procedures, apply, call/cc escaping and re-entered, eval inside a closure,
+   internal defines, tail calls with equal / more / fewer arguments), each running to HALT; and the state
+   after 28 instructions of the first one is inside a closure body with a non-empty envmap, about to execute a
+   MOV / PUSH: all hypotheses of C06_lex_instr_env_sites but finv (C06_eval_vm_outcome) are exhibited there *)
+Example C06_discipline_example :
+  forallb monitor_passes disc_texts = true /\
+  match state_after (nth 0 disc_texts nil) 28 with Some s => in_body_with_env s = true | None => False end.
+Proof. split; [exact discipline_on_examples|exact reachable_in_body_state]. Qed.
+
+(* OPEN (the bytecode-verifier theorem): the sites of D are unreachable too.  It follows from the theorems
+   above + C04 (tcall_frame_effect, C04_tcall_vararg_enter) once [disc_okb] (strengthened by: the cells
+   between bp+5 and sp, the arguments below bp and every cell popped by CONS / VPUSH / VARARG / a builtin
+   are VALUES; every saved (VEp e, VIp lp i) pair below sp is ok for the code object lp) is shown to hold
+   at every instruction boundary: for the code the compiler emits (pushes and pops balanced per
+   expression) and across CALL / TCALL / RET / apply / call/cc / continuation re-entry / eval. *)
+Definition C06_frame_discipline_stmt : Prop :=
+  forall prelude s0 s fuel e k,
+    boot_with prelude = Some s0 -> evals s0 s -> eval Builtins.other_builtin fuel e s = RPanic k ->
+    k <> 10 /\ k <> 14 /\ k <> 40 /\ k <> 44.
+
+(* towards the static half of C06_frame_discipline_stmt: the two places where the compiler takes its indices
+   from.  The operand emitted for a variable reference in lambda l is below len (l_envmap l) when it is a
+   lexical slot; the envmap the compiler builds for a lambda expression has argument entries that are
+   arguments ([arg_okb]) and IofEnvironment entries below the size of the ENCLOSING lambda's envmap, i.e. of
+   the environment CLOSURE runs with ([iof_okb]).  (Propagating them to every stored code object is the
+   compile walk named in docs/WP-c06e.md.) *)
+Theorem C06_location_operand_lex : forall l sym s v s',
+  location_operand l sym s = ROk v s' -> lex_slotb (len (l_envmap l)) v = true.
+Proof. exact location_operand_lex. Qed.
+Print Assumptions C06_location_operand_lex.
+
+Theorem C06_lambda_from_iof_static : forall args internal iof free va,
+  arg_okb (lambda_from_iof args internal iof free va) = true /\
+  iof_okb (len (l_envmap iof)) (l_envmap (lambda_from_iof args internal iof free va)) = true.
+Proof. exact lambda_from_iof_static. Qed.
+Print Assumptions C06_lambda_from_iof_static.
